@@ -34,6 +34,11 @@ def step (line : String) : String :=
       let x := sk % r
       s!"ok {toHex (sign evalOps x msg)} pk={toHex (marshalG2 (G2.smul x g2gen))}"
     | _, _ => "bad-op"
+  -- `Verify` is a pure function of (key, message, signature): every goroutine of every round gets the same verdict
+  | ["conc", sk, ms, ss, _, rounds, n] =>
+    match sk.toNat?, msgOf ms, ofHex ss with
+    | some sk, some msg, some sig => s!"all={verdictName (verify evalOps (sk % r) msg sig)} rounds={rounds} n={n}"
+    | _, _, _ => "bad-op"
   | ["keccak", ms] =>
     match msgOf ms with
     | some msg => toHex (Keccak.keccak256 msg)
